@@ -39,7 +39,7 @@ let () =
   let spec = Array.length Sys.argv > 3 && Sys.argv.(3) = "spec" in
   (* "inv": evaluate the invariants of the refinement proof (wf_check always, dyn_check while no deviation event touched the slot) *)
   let inv = Array.length Sys.argv > 3 && Sys.argv.(3) = "inv" in
-  let taint = ref [] in let ninv = ref 0 in let nwf = ref 0 in let ndyn = ref 0 in let firstbad = ref "" in let curseq = ref "" in
+  let taint = ref [] in let thm = ref [] in let nthm = ref 0 in let nops = ref 0 in let ninv = ref 0 in let nwf = ref 0 in let ndyn = ref 0 in let firstbad = ref "" in let curseq = ref "" in
   let gs = ref [] in
   let w = ref [] in
   let out = Buffer.create 65536 in
@@ -49,7 +49,7 @@ let () =
       (match toks with
        | "SEQ" :: id :: nslot :: nsub :: _ ->
           w := List.init (int_of_string nslot) (fun _ -> st0 (i2n (int_of_string nsub)));
-          gs := List.map abs !w; taint := List.map (fun _ -> false) !w; curseq := id;
+          gs := List.map abs !w; taint := List.map (fun _ -> false) !w; thm := List.map (fun _ -> true) !w; curseq := id;
           if not inv then Buffer.add_string out ("SEQ " ^ id ^ "\n")
        | "END" :: _ -> if not inv then begin (if spec then List.iteri (fun i g -> gdump out g i) !gs else List.iteri (fun i s -> dump out s i) !w); Buffer.add_string out "END\n" end
        | [] -> ()
@@ -97,6 +97,14 @@ let () =
           let (w', threw) = wstep cf !w wo in
           if inv then begin
             let n = List.length !w in let inr i = i >= 0 && i < n in
+            incr nops;
+            (match wo with
+             | On (sl, o) -> let i = n2i sl in
+                             if inr i then begin
+                               if List.nth !thm i && covered (List.nth !w i) o && legal cf (List.nth !w i) o then incr nthm else thm := set_nth !thm i false end
+             | CopyC (d, _) | Assign (d, _) -> let d = n2i d in if inr d then thm := set_nth !thm d false
+             | Move (d, s) -> let d = n2i d and s = n2i s in
+                              if inr d && inr s then (let a = List.nth !thm d and b = List.nth !thm s in thm := set_nth (set_nth !thm d b) s a));
             (match wo with
              | On (sl, o) -> let i = n2i sl in if inr i && not (legal cf (List.nth !w i) o) then taint := set_nth !taint i true
              | CopyC (d, s) -> let d = n2i d and s = n2i s in
@@ -136,4 +144,4 @@ let () =
       if Buffer.length out > 1000000 then (print_string (Buffer.contents out); Buffer.clear out)
     done with End_of_file -> ());
   print_string (Buffer.contents out);
-  if inv then Printf.printf "INV states=%d wf_fail=%d dyn_fail=%d first=%s\n" !ninv !nwf !ndyn !firstbad
+  if inv then Printf.printf "INV states=%d wf_fail=%d dyn_fail=%d ops=%d thm=%d first=%s\n" !ninv !nwf !ndyn !nops !nthm !firstbad
